@@ -225,8 +225,12 @@ Definition tail_step (tid : nat) (t : tail) (s : st) : option (st * list ev * op
       Some (s1, [ERoot (match res s with Some o => o | None => ODone end)], None)
   end.
 
+(* the second (safe) callback is not combined with an unsafe first one: whoever completes through
+   the safe callback would have to disarm the pending unsafe callback first (the user's duty) *)
+Definition has_second (p : params) : bool :=
+  second p && match first p with FUnsafe => false | _ => true end.
 Definition makes_holder (p : params) : bool :=
-  second p || match first p with FInl | FSafe => true | _ => false end.
+  has_second p || match first p with FInl | FSafe => true | _ => false end.
 
 (* ---- thread 0 ----------------------------------------------------------------------------- *)
 Definition step0 (p : params) (s : st) : option (st * list ev) :=
@@ -286,7 +290,7 @@ Definition is_safe (p : params) (i : nat) : bool :=
   if Nat.eqb i 1 then match first p with FSafe => true | _ => false end else true.
 Definition exists_cb (p : params) (i : nat) : bool :=
   if Nat.eqb i 1 then match first p with FSafe | FUnsafe => true | _ => false end
-  else second p.
+  else has_second p.
 Definition holds (s : st) (i : nat) : bool := if Nat.eqb i 1 then h1 s else h2 s.
 Definition set_holds (s : st) (i : nat) (b : bool) (r : nat) : st :=
   if Nat.eqb i 1 then set_holder s (own s) r b (h2 s) else set_holder s (own s) r (h1 s) b.
